@@ -315,7 +315,8 @@ impl<'a> Gen<'a> {
 
     fn fresh_block(&mut self) -> u64 {
         let h = self.next_h;
-        self.next_h += 64;
+        // wide blocks: the 48-id window of a call slides by the candidates it has used; it must never reach the next block
+        self.next_h += 256;
         h
     }
 
